@@ -10,8 +10,8 @@ file: `List.drop`), magics select enum variants, a failed read makes `PatchChunk
 `Fs.Tree` below `data_dir`.  zlib's raw inflate is the parameter `inflate compressed outLen`
 (`none` = `no_header_decompress` returns `false`).
 
-The model mirrors the code *with the fixes* `fixes/C03-01…` (relative-path comparison in `create`)
-and `fixes/C03-02…` (platform = low byte of the big-endian u16).
+The model mirrors the code *with the fixes* `fixes/C04-01…` (relative-path and content comparison
+in `create`) and `fixes/C03-01…` (big-endian ADIR/DELD name length).
 -/
 namespace Physis.Patch
 open Physis Physis.Fs
@@ -134,7 +134,7 @@ def rdFileHeader (s : Bytes) : Rd Chunk :=
     else .fail
 
 /-- `DirectoryChunk` (ADIR / DELD): `name_length` then the name.  (The length is big-endian on
-the wire — see fix C03-03.) -/
+the wire — fix C03-01.) -/
 def rdDirectory (mk : Bytes → Chunk) (s : Bytes) : Rd Chunk :=
   match rdU32be s with
   | none => .fail
@@ -211,7 +211,7 @@ def rdSqpk (s : Bytes) : Rd Chunk :=
       | none => .fail
     else if op = 0x54 then     -- 'T' SqpkTargetInfo
       match (do
-        -- pad_before = 4: the platform is a big-endian u16, the enum is its low byte (fix C03-02)
+        -- pad_before = 4: the platform is a big-endian u16, the enum is its low byte
         let (pl, s) ← rdU8 (s.drop 4)
         if pl ≤ 4 then pure () else none
         let (rg, s) ← rdU16be s
@@ -498,6 +498,38 @@ def apply (inflate : Bytes → Nat → Option Bytes) (patch : Bytes) (t : Tree) 
   match rdPatchHeader patch with
   | none => (.parseError, t)
   | some s => applyLoop inflate patch.length s none t
+
+/-- several patches applied one after another to the same directory (separate calls of
+`ZiPatch::apply`: nothing but the directory carries over); stops at the first failure -/
+def applyAll (inflate : Bytes → Nat → Option Bytes) : List Bytes → Tree → Outcome × Tree
+  | [], t => (.ok, t)
+  | p :: ps, t =>
+    match apply inflate p t with
+    | (.ok, t') => applyAll inflate ps t'
+    | r => r
+
+/-- The chunks of a patch in reading order up to and including `EOF_`, each with the payload the
+loop pulls for it (AddFile blocks, decompressed and concatenated) — the reading half of `applyLoop`
+without the effects.  `none` = parse error or panic on the way. -/
+def parseChunks (inflate : Bytes → Nat → Option Bytes) : Nat → Bytes → Option (List (Chunk × Bytes))
+  | 0, _ => none
+  | fuel + 1, s =>
+    match rdChunkBody s with
+    | .fail => none
+    | .panic => none
+    | .ok .eof _ => some [(.eof, [])]
+    | .ok c sb =>
+      if sb.length < 4 then none
+      else
+        match c with
+        | .fileOp .addFile _ size _ _ =>
+          match readBlocks inflate (sb.length + 1) sb size.toNat [] with
+          | none => none
+          | some (data, s') => (parseChunks inflate fuel (s'.drop 4)).map ((c, data) :: ·)
+        | c => (parseChunks inflate fuel (sb.drop 4)).map ((c, []) :: ·)
+
+def parsePatch (inflate : Bytes → Nat → Option Bytes) (patch : Bytes) : Option (List (Chunk × Bytes)) :=
+  (rdPatchHeader patch).bind (parseChunks inflate patch.length)
 
 /-! ## `ZiPatch::create` -/
 
